@@ -67,4 +67,7 @@ example : decode .data ⟨false, 0x0101, []⟩ = .err .wrongSize ∧
 variant tables are the model's -/
 theorem C05_src_guards : (SrcTie.sizeGuardsOk && SrcTie.bcmTagsOk && SrcTie.relayTagsOk && SrcTie.constUseOk) = true := by decide
 
+/-- the model's `decode` reads every field of every kind from the offset and width `try_from_packet` reads it from -/
+theorem C05_src_reads : SrcTie.decoderLayoutOk = true := by decide
+
 end Ross.Props
